@@ -91,6 +91,9 @@ def oracle(case, out):
             elif op == "remove": changed[c].discard(int(t[2]))
             elif op == "enable": mask[c] = int(t[2])
             after = trig(c)
+            if not after:
+                for cl_ in calls.values():
+                    cl_.get("steady", set()).discard(c)
             if kv.get("t") != ("1" if after else "0"):
                 bad(i, "trigger-wrong", f"trigger value must be {int(after)}")
             woke = [] if kv.get("wake", "-") == "-" else [int(x) for x in kv["wake"].split(",")]
@@ -107,7 +110,8 @@ def oracle(case, out):
                 if o[0] != "gone": bad(i, "harness", "call id reused")
                 continue
             cs = [] if t[2] == "-" else [int(x) for x in t[2].split(",")]
-            calls[w] = {"conds": cs, "phase": o[0], "acc": [], "woken": False, "cur": int(o[1]) if len(o) > 1 and o[1].isdigit() else None}
+            calls[w] = {"conds": cs, "phase": o[0], "acc": [], "woken": False, "cur": int(o[1]) if len(o) > 1 and o[1].isdigit() else None,
+                        "steady": set(c for c in cs if trig(c))}   # attached conditions true since the call started
             exp = "err-precondition" if not cs else f"checking {cs[0]}"
             if " ".join(o[:2]) != exp and o[0] != exp:
                 bad(i, "wait-phase-wrong", f"expected `{exp}`")
@@ -138,6 +142,10 @@ def oracle(case, out):
                 got = [] if o[1] == "-" else [int(x) for x in o[1].split(",")]
                 if got != cl["acc"]:
                     bad(i, "wait-result-wrong", f"returned {got}, but the attached conditions true when queried were {cl['acc']}")
+                missing = sorted(c for c in cl["steady"] if c not in got)
+                if missing:
+                    # independent of which conditions the implementation chose to query (seeded change C32_d: return at the first hit)
+                    bad(i, "wait-result-incomplete", f"returned {got}, but attached condition(s) {missing} have been true ever since the call started")
                 if prev == "checking" and not got:
                     bad(i, "wait-result-wrong", "first loop returned an empty list")
         if len(viol) >= 3:
